@@ -193,13 +193,90 @@ def _k3(ctx):
     ctx.floor(R, 9)
 
 
+def _k4(ctx):
+    R = "C07-K4"
+    ctx.doc(R, "the symengine -> sympy conversion is class-faithful: the arm taken for symengine class K builds sympy class K from all converted arguments (Integer from int(v), Rational from numerator and denominator, Symbol by name)")
+    fi = ctx.func(MTS, "_make_tile_shapes.<locals>._to_sp", R)
+    v = fi.params()[0]
+    # the if/elif chain on `t is se.K`
+    arms = []
+    chain = [s for s in fi.node.body if isinstance(s, ast.If) and "is se." in norm(s.test)]
+    ctx.require(len(chain) == 1, R, f"dispatch chains on the symengine class: {len(chain)}")
+    node = chain[0]
+    while isinstance(node, ast.If):
+        tests = node.test.values if isinstance(node.test, ast.BoolOp) and isinstance(node.test.op, ast.Or) else [node.test]
+        ks = []
+        for t in tests:
+            ok = isinstance(t, ast.Compare) and len(t.ops) == 1 and isinstance(t.ops[0], ast.Is) and isinstance(t.comparators[0], ast.Attribute) and norm(t.comparators[0].value) == "se"
+            ctx.require(ok, R, f"arm test `{norm(t)}`")
+            ks.append(t.comparators[0].attr)
+        arms.append((ks, node))
+        node = node.orelse[0] if len(node.orelse) == 1 and isinstance(node.orelse[0], ast.If) else None
+    ctx.require(len(arms) >= 6, R, f"conversion arms: {len(arms)}")
+    tname = norm(arms[0][1].test.left if not isinstance(arms[0][1].test, ast.BoolOp) else arms[0][1].test.values[0].left)
+    for ks, arm in arms:
+        body = ast.Module(body=arm.body, type_ignores=[])
+        aliases = {}
+        for st in ast.walk(body):
+            if isinstance(st, ast.Assign) and len(st.targets) == 1 and isinstance(st.targets[0], ast.Name) and isinstance(st.value, ast.IfExp):
+                aliases[st.targets[0].id] = st.value
+        for K in ks:
+            built = set()
+            argsok = True
+            for c in ast.walk(body):
+                if not isinstance(c, ast.Call):
+                    continue
+                f = c.func
+                name = None
+                if isinstance(f, ast.Attribute) and norm(f.value) == "sympy" and f.attr[:1].isupper():
+                    name = f.attr
+                elif isinstance(f, ast.Name) and f.id in aliases:
+                    ie = aliases[f.id]
+                    t = ie.test
+                    if isinstance(t, ast.Compare) and isinstance(t.ops[0], ast.Is) and norm(t.left) == tname and isinstance(t.comparators[0], ast.Attribute):
+                        pick = ie.body if t.comparators[0].attr == K else ie.orelse
+                        name = pick.attr if isinstance(pick, ast.Attribute) and norm(pick.value) == "sympy" else None
+                    ctx.require(name is not None, R, f"constructor alias `{norm(ie)}`")
+                if name is None:
+                    continue
+                built.add(name)
+                atxt = " ".join(norm(a) for a in c.args)
+                if K in ("Add", "Mul", "Pow", "Max", "Min"):
+                    # every argument converted: exactly one starred argument, a comprehension `_to_sp(a) for a in v.args`
+                    # (directly, or through a local such as sp_args = tuple(sorted(<that generator>, key=...)))
+                    src = c.args[0].value if len(c.args) == 1 and isinstance(c.args[0], ast.Starred) else None
+                    if isinstance(src, ast.Name):
+                        d = [s2.value for s2 in ast.walk(body) if isinstance(s2, ast.Assign) and norm(s2.targets[0]) == src.id]
+                        src = d[0] if d else None
+                    comps = [x for x in ast.walk(src) if isinstance(x, (ast.ListComp, ast.GeneratorExp, ast.SetComp))] if src is not None else []
+                    good = [x for x in comps if len(x.generators) == 1 and not x.generators[0].ifs and norm(x.generators[0].iter) == f"{v}.args"
+                            and isinstance(x.elt, ast.Call) and call_name(x.elt) == fi.name and len(x.elt.args) == 1 and norm(x.elt.args[0]) == norm(x.generators[0].target)]
+                    argsok &= len(good) == 1 and not isinstance(comps[0], ast.SetComp)
+                elif K == "Integer":
+                    argsok &= atxt == f"int({v})"
+                elif K == "Rational":
+                    argsok &= len(c.args) == 2 and f"{v}.p" in norm(c.args[0]) and f"{v}.q" in norm(c.args[1])
+                elif K == "Symbol":
+                    argsok &= atxt == f"str({v})"
+            ctx.check(built == {K} and argsok, R, fi, arm.test, f"a symengine {K} is converted by building sympy {sorted(built) or 'nothing'}" + ("" if argsok else " from other arguments than the node's own") +
+                      f": the sympy formula differs from the model's (e.g. a Rational coefficient truncated to an Integer), so compiled objectives disagree with the concrete evaluation",
+                      f"se.{K} -> sympy.{K} from the node's own arguments")
+    ctx.floor(R, 8)
+
+
 def check(ctx):
     _k1(ctx)
     _k2(ctx)
     _k3(ctx)
+    _k4(ctx)
+    from . import c03
+    c03._v8(ctx, "C07-K5")  # a memory wrongly left untracked has no usage formula at all: same sibling-agreement rule as C03-V8
 
 
 VARIANTS = [
+    {"kind": "F", "name": "rational-converted-as-integer", "rule": "C07-K4", "edits": [(MTS, "        elif t is se.Integer:\n            r = sympy.Integer(int(v))\n        elif t is se.Rational:\n            r = sympy.Rational(int(v.p), int(v.q))\n", "        elif t is se.Integer or t is se.Rational:\n            r = sympy.Integer(int(v))\n")]},
+    {"kind": "F", "name": "min-converted-as-max", "rule": "C07-K4", "edits": [(MTS, "            cls = sympy.Max if t is se.Max else sympy.Min", "            cls = sympy.Max")]},
+    {"kind": "F", "name": "pow-drops-exponent", "rule": "C07-K4", "edits": [(MTS, "            r = sympy.Pow(*[_to_sp(a) for a in v.args])", "            r = sympy.Pow(_to_sp(v.args[0]), 1)")]},
     {"kind": "F", "name": "lambdify-key-without-expression", "rule": "C07-K1", "edits": [(PAR, "        cache_args = tuple(tuple(a) if isinstance(a, list) else a for a in args)", "        cache_args = tuple(tuple(a) if isinstance(a, list) else a for a in args[:1])")]},
     {"kind": "F", "name": "delete-refs-append", "rule": "C07-K2", "edits": [(MTS, "        _id_cache[vid] = r\n        _refs.append(v)\n", "        _id_cache[vid] = r\n")]},
     {"kind": "F", "name": "minmax-key-args-only", "rule": "C07-K1", "edits": [(MTS, "            key = (cls, sp_args)\n", "            key = sp_args\n")]},
